@@ -167,6 +167,33 @@ func c20Scenario(seed uint64) (*core.Scenario, *C20Extra, string) {
 			return sc, ex, ""
 		}
 	}
+	if ex.Kind == "jsonfact" && r.Chance(1, 5) {
+		// odd but well-formed fact documents
+		doc := r.PickStr("null", " null ", "\n\tnull\n", "[]", "[1,2,3]", "3", "\"str\"", "true", "{}", "{\"a\":null}", "{\"a\":{\"b\":null}}", "1e999", "-0",
+			strings.Repeat("[", 2000)+strings.Repeat("]", 2000), strings.Repeat("{\"a\":", 1000)+"1"+strings.Repeat("}", 1000), "{\"n\":123456789012345678901234567890}", "{\"a\":1,\"a\":2}")
+		ex.Ops = []dsim.COp{{Kind: "trunc", Pos: 0}, {Kind: "insert", Pos: 0, Text: doc}}
+		return &core.Scenario{Property: "C20", Sim: "D", Seed: seed}, ex, ""
+	}
+	if ex.Kind == "jsonrule" && r.Chance(1, 5) {
+		// a well-formed rule whose condition nests operator objects as OPERANDS, a narrow chain k levels deep
+		k := int(r.PickInt64(8, 16, 24, 32, 48))
+		op := r.PickStr("plus", "minus", "mul", "and", "or", "eq", "bor")
+		chain := "{\"obj\":\"F.I\"}"
+		for i := 0; i < k; i++ {
+			if op == "and" || op == "or" {
+				chain = "{\"" + op + "\":[" + chain + ",{\"eq\":[{\"obj\":\"F.I\"},{\"const\":1}]}]}"
+			} else {
+				chain = "{\"" + op + "\":[" + chain + ",{\"const\":1}]}"
+			}
+		}
+		when := chain
+		if op != "and" && op != "or" && op != "eq" {
+			when = "{\"gt\":[" + chain + ",{\"const\":0}]}"
+		}
+		doc := "{\"name\":\"Deep\",\"when\":" + when + ",\"then\":[\"F.I = 2\"]}"
+		ex.Ops = []dsim.COp{{Kind: "trunc", Pos: 0}, {Kind: "insert", Pos: 0, Text: doc}}
+		return &core.Scenario{Property: "C20", Sim: "D", Seed: seed}, ex, ""
+	}
 	var idPos []int
 	if ex.Kind == "grb" {
 		for _, m := range nodeID.FindAllIndex(ex.Base, -1) {
